@@ -3,6 +3,7 @@ From Coq Require Import Lia Sorting.Permutation String.
 From RM Require Import C13.Model C13.Proofs C13.Linux C13.ProofsLinux C13.ProofsLimits C13.Sites.
 From RM Require C12.Model C12.Proofs C13.Sched C13.ProofsSched.
 From RM Require Import C13.Adaptive C13.ProofsAdaptive C13.Budget C13.ProofsBudget C13.Cfi C13.ProofsCfi C13.Process C13.ProofsProcess.
+From RM Require Import C13.Unloaded C13.ProofsUnloaded.
 Open Scope string_scope.
 Open Scope list_scope.
 Open Scope Z_scope.
@@ -614,3 +615,89 @@ Example c13_nonvacuous_merge :
   lookup Nat.eqb 2%nat (merge_stats Nat.eqb [[(2, 20); (1, 10)]; [(3, 31); (2, 21)]]%nat) = Some 21%nat /\
   lookup Nat.eqb 1%nat (merge_stats Nat.eqb maps) = Some 10%nat /\ lookup Nat.eqb 4%nat (merge_stats Nat.eqb maps) = None.
 Proof. cbv zeta. repeat split. Qed.
+
+(* ==== round 5, second pass ==== *)
+(* ---- the per-frame map of overlapping UNLOADED modules (processor.rs, the statements of the walk future after walk_stack;
+   printed by print_json and CallStack::print).  BTreeMap<String, BTreeSet<u64>> built by entry().or_insert_with().insert():
+   for every order in which modules_at_address yields the overlapping modules, in both build profiles, the map is the same,
+   and the offset subtraction never traps *)
+Theorem c13_unloaded_offsets_order_independent :
+  forall (p1 p2 : profile) (perm1 perm2 : list umod -> list umod) (addr : Z) (l : list umod),
+  (forall h, Permutation (perm1 h) h) -> (forall h, Permutation (perm2 h) h) -> umods_wf l ->
+  frame_offsets p1 perm1 addr l = frame_offsets p2 perm2 addr l.
+Proof. exact frame_offsets_order_independent. Qed.
+Print Assumptions c13_unloaded_offsets_order_independent.
+
+(* (l = the list the reader hands over: unloaded_list_read, all of the stream or nothing; it keeps umods_wf and gives every
+   module a range: ProofsUnloaded.unloaded_list_read_wf / _ranges) *)
+
+(* ... and it is determined by the SET of (name, instruction - base) pairs of the modules whose range contains the address:
+   names strictly ascending, offsets of a name strictly ascending, no empty entry, offset x listed under name n iff some
+   overlapping module named n has base addr - x.  (A strictly sorted list is determined by its members, so this fixes the
+   bytes the printers emit; what they emit is the list read from the left: render_unloaded_btree.) *)
+Theorem c13_unloaded_offsets_determined :
+  forall (p : profile) (perm : list umod -> list umod) (addr : Z) (l : list umod),
+  (forall h, Permutation (perm h) h) -> umods_wf l ->
+  exists m, frame_offsets p perm addr l = Ret m /\
+    ksorted bytes_ltb m /\ (forall e, In e m -> snd e <> []) /\
+    forall n x, listed m n x <-> exists u, In u l /\ u_contains addr u = true /\ u_name u = n /\ x = addr - u_base u.
+Proof.
+  intros p perm addr l Hp Hw. exists (map_of_pairs bytes_ltb (hit_pairs addr l)).
+  split; [apply frame_offsets_closed; assumption|].
+  split; [apply (map_of_pairs_sorted bytes_ltb bytes_ltb_trans)|].
+  split; [exact (map_of_pairs_nonempty bytes_ltb (hit_pairs addr l))|].
+  intros n x. rewrite (map_of_pairs_listed bytes_ltb bytes_ltb_trans bytes_ltb_total). apply hit_pairs_in.
+Qed.
+Print Assumptions c13_unloaded_offsets_determined.
+
+(* the contrast (mutation "StackFrame.unloaded_modules: HashMap", or a HashSet of offsets): the same printers over hash
+   containers depend on the iteration order *)
+Theorem c13_unloaded_hash_containers_refuted :
+  (exists (m : list (Z * list Z)) (i1 i2 : list (Z * list Z) -> list (Z * list Z)),
+     (forall x, Permutation (i1 x) x) /\ (forall x, Permutation (i2 x) x) /\
+     render_unloaded i1 (fun s => s) m <> render_unloaded i2 (fun s => s) m) /\
+  (exists (m : list (Z * list Z)) (j1 j2 : list Z -> list Z),
+     (forall x, Permutation (j1 x) x) /\ (forall x, Permutation (j2 x) x) /\
+     render_unloaded (fun x => x) j1 m <> render_unloaded (fun x => x) j2 m).
+Proof.
+  split.
+  - exists [(1, [10]); (2, [20])], (fun x => x), (@rev _).
+    split; [intros; apply Permutation_refl|]. split; [intros; apply Permutation_sym, Permutation_rev|]. exact render_unloaded_hash_depends.
+  - exists [(1, [10; 20])], (fun x => x), (@rev _).
+    split; [intros; apply Permutation_refl|]. split; [intros; apply Permutation_sym, Permutation_rev|]. exact render_unloaded_hashset_depends.
+Qed.
+Print Assumptions c13_unloaded_hash_containers_refuted.
+
+(* non-vacuity: three unloaded modules, two of them with one name, all containing the address; visited forwards and
+   backwards, debug and release *)
+Example c13_nonvacuous_unloaded :
+  let l := [ {| u_name := [98]; u_base := 4096; u_size := 8192 |}; {| u_name := [97]; u_base := 4352; u_size := 8192 |};
+             {| u_name := [98]; u_base := 4608; u_size := 4096 |}; {| u_name := [99]; u_base := 0; u_size := 16 |} ] in
+  umods_wf l /\ unloaded_list_read l = l /\
+  unloaded_list_read ({| u_name := [100]; u_base := 4096; u_size := 0 |} :: l) = [] /\
+  frame_offsets Debug (fun h => h) 5000 l = Ret [([97], [648]); ([98], [392; 904])] /\
+  frame_offsets Release (@rev _) 5000 l = Ret [([97], [648]); ([98], [392; 904])].
+Proof. cbn zeta. split; [intros u Hu; cbn in Hu; intuition (subst; cbn; lia)|]. repeat split; vm_compute; reflexivity. Qed.
+
+(* ---- the evil-json certificates from the MEMBERS of the parsed JSON object (a repeated certificate name replaces the earlier
+   member, as serde's HashMap visitor does): whatever iteration order the HashMap has, every module gets the same certificate.
+   No NoDup hypothesis is left: it is proved of the map the members build (hm_of_members_nodup) *)
+Theorem c13_cert_pipeline_order_independent :
+  forall (perm1 perm2 : list (bytes * list bytes) -> list (bytes * list bytes)) (members : list (bytes * list bytes)) (module : bytes),
+  (forall m, Permutation (perm1 m) m) -> (forall m, Permutation (perm2 m) m) ->
+  cert_pipeline perm1 members module = cert_pipeline perm2 members module.
+Proof. exact cert_pipeline_order_independent. Qed.
+Print Assumptions c13_cert_pipeline_order_independent.
+
+Example c13_nonvacuous_cert_pipeline :
+  (* {"b": [m], "a": [m], "b": [x]}: the second "b" replaces the first, so "a" is the only certificate of m *)
+  cert_pipeline (@rev _) [([98], [[109]]); ([97], [[109]]); ([98], [[120]])] [109] = Some [97] /\
+  cert_pipeline (fun x => x) [([98], [[109]]); ([97], [[109]]); ([98], [[120]])] [109] = Some [97].
+Proof. split; vm_compute; reflexivity. Qed.
+
+(* ---- every iteration over an ORDERED container and every field declared as one is an enumerated, classified site *)
+Theorem c13_ordered_sites_modelled :
+  RM.Gen.C13Sites.ordered_iteration_sites = map fst modelled_ordered_iteration_sites /\
+  RM.Gen.C13Sites.ordered_container_fields = map fst modelled_ordered_container_fields.
+Proof. split; reflexivity. Qed.
+Print Assumptions c13_ordered_sites_modelled.
